@@ -372,11 +372,22 @@ var syTime0 = time.Date(2020, 1, 1, 0, 0, 0, 0, time.UTC)
 
 func syOwnerRefs(owner string) []metav1.OwnerReference {
 	t := true
+	self := metav1.OwnerReference{APIVersion: "apps.pingcap.com/v1", Kind: "StatefulSet", Name: rcSetName, UID: syUID, Controller: &t, BlockOwnerDeletion: &t}
+	other := metav1.OwnerReference{APIVersion: "apps.pingcap.com/v1", Kind: "StatefulSet", Name: rcSetName, UID: "uid-other", Controller: &t, BlockOwnerDeletion: &t}
+	// a reference that is not a controller reference (a third party's bookkeeping, what orphaning by another owner leaves behind):
+	// it decides nothing — ownership is the controller reference alone
+	extra := metav1.OwnerReference{APIVersion: "example.com/v1", Kind: "Backup", Name: "nightly", UID: "uid-extra"}
 	switch owner {
 	case "s":
-		return []metav1.OwnerReference{{APIVersion: "apps.pingcap.com/v1", Kind: "StatefulSet", Name: rcSetName, UID: syUID, Controller: &t, BlockOwnerDeletion: &t}}
+		return []metav1.OwnerReference{self}
 	case "o":
-		return []metav1.OwnerReference{{APIVersion: "apps.pingcap.com/v1", Kind: "StatefulSet", Name: rcSetName, UID: "uid-other", Controller: &t, BlockOwnerDeletion: &t}}
+		return []metav1.OwnerReference{other}
+	case "S": // controlled by the set, the foreign non-controller reference listed first
+		return []metav1.OwnerReference{extra, self}
+	case "O":
+		return []metav1.OwnerReference{extra, other}
+	case "N": // an orphan that still carries a non-controller reference
+		return []metav1.OwnerReference{extra}
 	}
 	return nil
 }
@@ -686,9 +697,9 @@ func runSync(line string) string {
 	if err != nil {
 		return "bad-case " + err.Error()
 	}
-	// harness-side sanity: the name shapes in the case agree with the real parser
+	// harness-side sanity: the name shapes in the case are what the names denote (read independently of the repository's parser)
 	for _, p := range c.pods {
-		parent, ord := sts.VerifGetParentNameAndOrdinal(&v1.Pod{ObjectMeta: metav1.ObjectMeta{Name: p.name}})
+		parent, ord := specParentAndOrdinal(p.name)
 		if (parent == rcSetName) != p.member || (p.member && ord != p.ord) {
 			return fmt.Sprintf("bad-case name %q parses to (%q,%d)", p.name, parent, ord)
 		}
@@ -720,6 +731,9 @@ func genSyPod(rng *rand.Rand, c *syCase, ord int, revNames []string) syPod {
 		p.rev = pick(rng, "", "garbage")
 	}
 	p.owner = pick(rng, "s", "s", "s", "s", "s", "s", "s", "n", "n", "o")
+	if rng.Intn(12) == 0 {
+		p.owner = strings.ToUpper(p.owner)
+	}
 	switch weighted(rng, 88, 3, 3, 3, 3) {
 	case 0:
 		p.name = fmt.Sprintf("%s-%d", rcSetName, ord)
@@ -746,6 +760,9 @@ func genSyPod(rng *rand.Rand, c *syCase, ord int, revNames []string) syPod {
 func genSyCase(rng *rand.Rand) *syCase {
 	c := &syCase{selOk: true, fuid: 1}
 	c.r = weighted(rng, 8, 16, 22, 22, 16, 10)
+	if rng.Intn(15) == 0 { // ordinals with two digits
+		c.r = 8 + rng.Intn(6)
+	}
 	nslots := weighted(rng, 45, 30, 15, 10)
 	seen := map[int]bool{}
 	for i := 0; i < nslots; i++ {
@@ -807,10 +824,14 @@ func genSyCase(rng *rand.Rand) *syCase {
 	nrev := weighted(rng, 10, 20, 25, 25, 15, 5)
 	datas := []string{c.tmpl, "X", "Y"}
 	used := map[string]bool{}
+	numOff := pick(rng, 0, 0, 0, 0, 0, 6, 7, 96) // now and then the numbers straddle a power of ten (8..11, 97..100)
 	for i := 0; i < nrev; i++ {
-		r := syRev{number: 1 + rng.Intn(4), ctim: rng.Intn(3), sel: rng.Intn(6) != 0, marker: rng.Intn(5) == 0}
+		r := syRev{number: numOff + 1 + rng.Intn(4), ctim: rng.Intn(3), sel: rng.Intn(6) != 0, marker: rng.Intn(5) == 0}
 		r.data = datas[weighted(rng, 45, 35, 20)]
 		r.owner = pick(rng, "s", "s", "s", "s", "s", "s", "n", "n", "n", "o", "o")
+		if rng.Intn(8) == 0 { // the same ownership with a non-controller reference next to it
+			r.owner = strings.ToUpper(r.owner)
+		}
 		collisionLabel := ""
 		properName, properHash := syHashName(c, r.data, pick(rng, 0, 0, 0, cc0))
 		switch weighted(rng, 55, 25, 20) {
@@ -868,6 +889,19 @@ func genSyCase(rng *rand.Rand) *syCase {
 			continue
 		}
 		c.pods = append(c.pods, genSyPod(rng, c, o, revNames))
+	}
+	if rng.Intn(25) == 0 { // a zero-padded name whose number has an 8 or 9 in it or two digits: decimal, whatever it looks like
+		o := pick(rng, 8, 9, 10, 12, 17)
+		p := genSyPod(rng, c, o, revNames)
+		p.ord = o
+		p.name, p.member, p.idOk = fmt.Sprintf("%s-0%d", rcSetName, o), true, false
+		taken := false // two condemned pods at one ordinal: Go's sort is not stable, the order of their deletes is not defined
+		for _, q := range c.pods {
+			taken = taken || q.ord == o
+		}
+		if !taken {
+			c.pods = append(c.pods, p)
+		}
 	}
 	if rng.Intn(40) == 0 { // a far-away pod, up to the largest ordinal a pod name can carry
 		c.pods = append(c.pods, genSyPod(rng, c, pick(rng, 2147483647, 2147483646, 1000000), revNames))
